@@ -34,8 +34,19 @@ def UNDEF(f):
     return z3.SetDifference(ARGN(f), DEF(f))
 
 
+_SIG_MEMO = {}
+
+
 def sig_facts(f):
     """Facts assumed of every callable's reported signature (A-fb)."""
+    k = f.get_id()
+    r = _SIG_MEMO.get(k)
+    if r is None:
+        r = _SIG_MEMO[k] = (f, _sig_facts(f))      # keep f alive so ids are not reused
+    return r[1]
+
+
+def _sig_facts(f):
     return z3.And(z3.IsSubset(DEF(f), ARGN(f)),
                   nset(ARGNSEQ(f)) == ARGN(f),
                   nset(REQSEQ(f)) == UNDEF(f),
